@@ -120,6 +120,18 @@ def main():
         for ln in open(os.path.join(SRC, '4DFR.pdb')):
             if ln.startswith('HETATM') and ln[17:20] == 'MTX' and ln[21] == 'B':
                 fh.write(ln[:80].rstrip() + '\n')
+    # methotrexate copy A with the residues that line it (ASP 27, ARG 57, ARG 52, LYS 32 + chain neighbours) and the chloride of chain A:
+    # a protein-ligand-ion micro-complex
+    r4 = residues(os.path.join(SRC, '4DFR.pdb'), 'A')
+    with open(os.path.join(OUT, 'complex_MTX.pdb'), 'w') as fh:
+        for k in seg(r4, (26, 27, 28, 31, 32, 33, 51, 52, 53, 56, 57, 58)):
+            for ln in r4[k]:
+                if not ln[12:16].strip().startswith('H'):
+                    fh.write(ln[:80].rstrip() + '\n')
+        fh.write('TER   \n')
+        for ln in open(os.path.join(SRC, '4DFR.pdb')):
+            if ln.startswith('HETATM') and ln[21] == 'A' and ln[17:20] in ('MTX', ' CL'):
+                fh.write(ln[:80].rstrip() + '\n')
     print(sorted(os.listdir(OUT)))
 
 
